@@ -83,6 +83,9 @@ class Ctx(object):
         a = np.empty(shape, dtype=object if self.sym else float)
         for idx in np.ndindex(*shape):
             a[idx] = self.real('%s_%s' % (name, '_'.join(map(str, idx))), **kw)
+        if self.sym:
+            from .proxy import sa
+            return sa(a)
         return a
 
     def const_array(self, values):
@@ -148,12 +151,12 @@ class Ctx(object):
             if not cond:
                 raise Reject(note)
 
-    def assume_eq(self, a, b, note=''):
+    def assume_eq(self, a, b, note='', bulk=False):
         a, b = np.asarray(a), np.asarray(b)
         a, b = np.broadcast_arrays(a, b)
         if self.sym:
             for x, y in zip(a.flat, b.flat):
-                ENG.assume(mkbool(lift(x) == lift(y)), note)
+                ENG.assume(mkbool(lift(x) == lift(y)), note, bulk=bulk)
         else:
             if not np.allclose(a.astype(float), b.astype(float), atol=1e-9):
                 raise Reject(note)
@@ -239,6 +242,7 @@ def run_symbolic(contract, config, max_paths=2000, budget_s=None, log=None):
     """Explore all paths of contract(ctx, **config); discharge every obligation.
     Returns a dict (picklable)."""
     t_start = time.time()
+    discharge.BUDGET.reset()
     worklist = [[]]
     results = []          # per obligation
     paths = []
@@ -246,6 +250,25 @@ def run_symbolic(contract, config, max_paths=2000, budget_s=None, log=None):
     n_paths = 0
     stubs = set()
     denoms_unproved = []
+    _nf = {}
+
+    def native_failing():
+        """clauses that fail when the same contract text is evaluated natively
+        on seeded float inputs (cheap falsification before the solvers)."""
+        if 'v' not in _nf:
+            d = {}
+            was = ENG.active
+            ENG.active = False
+            try:
+                for k in range(3):
+                    st, info = run_native(contract, config, seed=1000 + k, tries=5, all_failures=True)
+                    if st == 'failed':
+                        for f in info['failures']:
+                            d.setdefault(f['clause'], info['inputs'])
+            finally:
+                ENG.active = was
+            _nf['v'] = d
+        return _nf['v']
     while worklist:
         if n_paths >= max_paths:
             gaps.append(dict(kind='path-limit', detail='more than %d paths' % max_paths))
@@ -288,10 +311,15 @@ def run_symbolic(contract, config, max_paths=2000, budget_s=None, log=None):
         s.set('timeout', 5000)
         for h in hyps:
             s.add(h)
-        r = s.check()
-        pinfo['hyps_sat'] = str(r)
-        path_model = discharge.model_to_dict(s.model()) if r == z3.sat else None
-        if r == z3.unsat:
+        from .util import forked, TIMEOUT
+
+        def _job():
+            r = s.check()
+            return (str(r), discharge.model_to_dict(s.model()) if r == z3.sat else None)
+        rr = forked(_job, 6.0)
+        r_s, path_model = ('unknown', None) if rr is TIMEOUT else rr
+        pinfo['hyps_sat'] = r_s
+        if r_s == 'unsat':
             pinfo['status'] = 'vacuous'
             paths.append(pinfo)
             continue
@@ -304,21 +332,37 @@ def run_symbolic(contract, config, max_paths=2000, budget_s=None, log=None):
             elif ob.kind == 'concrete-false':
                 rec.update(status='refuted', backend='concrete', time_s=0.0, model=path_model, detail=ob.note)
             elif ob.kind == 'eq':
-                rec.update(discharge.prove_eq(ob.a, ob.b, hyps))
+                r1 = discharge.prove_eq(ob.a, ob.b, hyps, cheap_only=True)
+                if r1 is None and ob.name in native_failing():
+                    r1 = dict(status='refuted', backend='native-counterexample', time_s=0.0, model=native_failing()[ob.name])
+                rec.update(r1 if r1 is not None else discharge.prove_eq(ob.a, ob.b, hyps))
                 if rec['status'] != 'proved':
                     rec['detail'] = _short(ob.a) + '  ==  ' + _short(ob.b)
             else:
-                rec.update(discharge.prove(ob.goal, hyps))
+                if z3.is_true(z3.simplify(ob.goal)):
+                    rec.update(status='proved', backend='normal-form', time_s=0.0)
+                elif ob.name in native_failing():
+                    rec.update(status='refuted', backend='native-counterexample', time_s=0.0, model=native_failing()[ob.name])
+                elif discharge.BUDGET.left() > 0:
+                    tq = time.time()
+                    rec.update(discharge.prove(ob.goal, hyps, z3_timeout_ms=int(min(discharge.Z3_TIMEOUT_MS, discharge.BUDGET.left() * 1000))))
+                    discharge.BUDGET.spend(time.time() - tq)
+                else:
+                    rec.update(status='unknown', backend='budget-exhausted', time_s=0.0)
                 if rec['status'] != 'proved':
                     rec['detail'] = _short(ob.goal)
             if rec['status'] == 'refuted' and rec.get('model') is None:
                 rec['model'] = path_model
             results.append(rec)
         # side conditions: denominators
-        for d in ENG.denominators.values():
-            r = discharge.prove(d != 0, hyps, use_cvc5=False, z3_timeout_ms=2000)
+        light = [h for h, bk in zip(ENG.hyps, ENG.hyp_bulk) if not bk] + [c for c, _ in ENG.path]
+        dens = list(ENG.denominators.values())
+        for d in dens[:12]:
+            r = discharge.prove(d != 0, light, use_cvc5=False, z3_timeout_ms=1000)
             if r['status'] != 'proved':
                 denoms_unproved.append(_short(d))
+        for d in dens[12:]:
+            denoms_unproved.append(_short(d))
         paths.append(pinfo)
     return dict(config=_cfg(config), paths=paths, n_paths=n_paths, results=results, gaps=gaps,
                 stubs=sorted(stubs), denominators_assumed_nonzero=sorted(set(denoms_unproved))[:20],
@@ -341,7 +385,7 @@ def _short(t, n=300):
     return s if len(s) <= n else s[:n] + '...'
 
 
-def run_native(contract, config, seed=0, model=None, tries=50, tol=1e-7):
+def run_native(contract, config, seed=0, model=None, tries=50, tol=1e-7, all_failures=False):
     """Evaluate the contract on concrete floats.  Returns (status, info):
     status in held / failed / rejected / crash."""
     last = None
@@ -359,7 +403,7 @@ def run_native(contract, config, seed=0, model=None, tries=50, tol=1e-7):
             return 'crash', dict(error=''.join(traceback.format_exception(type(e), e, e.__traceback__)[-8:]),
                                  inputs=ctx.drawn, seed=seed * 7919 + k)
         if ctx.native_failures:
-            return 'failed', dict(failures=ctx.native_failures[:10], inputs=ctx.drawn, checked=ctx.native_checked,
+            return 'failed', dict(failures=ctx.native_failures if all_failures else ctx.native_failures[:10], inputs=ctx.drawn, checked=ctx.native_checked,
                                   seed=seed * 7919 + k)
         return 'held', dict(checked=ctx.native_checked, inputs=ctx.drawn, seed=seed * 7919 + k)
     return last or ('rejected', {})
